@@ -3,6 +3,9 @@ package upstream
 import (
 	"net"
 	"strings"
+	"sync"
+
+	"github.com/IrineSistiana/mosproxy/internal/upstream/transport"
 )
 
 func getDialAddr(urlAddr, dialAddr string, defaultPort string) string {
@@ -57,4 +60,53 @@ func tryTrimIpv6Brackets(s string) string {
 		return s[1 : len(s)-1]
 	}
 	return s
+}
+
+// connTracker remembers the connections dialled through it. Close closes all
+// of them, including those that are dialled (or finish dialling) afterwards.
+type connTracker struct {
+	m      sync.Mutex
+	closed bool
+	conns  map[*trackedConn]struct{}
+}
+
+type trackedConn struct {
+	net.Conn
+	t *connTracker
+}
+
+func newConnTracker() *connTracker {
+	return &connTracker{conns: make(map[*trackedConn]struct{})}
+}
+
+func (t *connTracker) track(c net.Conn) (net.Conn, error) {
+	t.m.Lock()
+	defer t.m.Unlock()
+	if t.closed {
+		c.Close()
+		return nil, transport.ErrClosedTransport
+	}
+	tc := &trackedConn{Conn: c, t: t}
+	t.conns[tc] = struct{}{}
+	return tc, nil
+}
+
+func (c *trackedConn) Close() error {
+	c.t.m.Lock()
+	delete(c.t.conns, c)
+	c.t.m.Unlock()
+	return c.Conn.Close()
+}
+
+// Close always returns nil.
+func (t *connTracker) Close() error {
+	t.m.Lock()
+	t.closed = true
+	conns := t.conns
+	t.conns = nil
+	t.m.Unlock()
+	for c := range conns {
+		c.Conn.Close()
+	}
+	return nil
 }
